@@ -167,6 +167,9 @@ def run(ctx) -> list[Inst]:
             'ok' if same_targets else 'violation',
             '' if same_targets else (f"one operand of {op} is not evaluated on '{P_T}': the set operator "
                                      f"combines sets computed from different start assets"))
+        # shortcut exits: `if not R: return (L, None)` is right for union / difference, wrong for intersection ...
+        for (stt, verdict_, msg_) in _shortcut_exits(op, before + body, L, R):
+            add(op, 'shortcut exits return what the operator defines for an empty operand', verdict_, msg_, line=stt.lineno)
         # result variable
         res = None
         for st in after + body:
@@ -327,6 +330,101 @@ def _lookup_source(body, e):
     if isinstance(e, ast.Attribute) and e.attr == 'type':
         return 'elem-type'
     return None
+
+
+def _emptiness(test, L, R):
+    """truth of an emptiness test over (L empty?, R empty?) -> function, or None when not such a test"""
+    if isinstance(test, ast.UnaryOp) and isinstance(test.op, ast.Not):
+        if is_name(test.operand, L):
+            return lambda le, re_: le
+        if is_name(test.operand, R):
+            return lambda le, re_: re_
+        inner = _emptiness(test.operand, L, R)
+        if inner is not None:
+            return lambda le, re_: not inner(le, re_)
+        return None
+    if isinstance(test, ast.Name) and test.id in (L, R):
+        return (lambda le, re_: not le) if test.id == L else (lambda le, re_: not re_)
+    if isinstance(test, ast.Compare) and len(test.ops) == 1:
+        l, r = test.left, test.comparators[0]
+        who = None
+        if isinstance(l, ast.Call) and isinstance(l.func, ast.Name) and l.func.id == 'len' and len(l.args) == 1 \
+                and isinstance(l.args[0], ast.Name) and l.args[0].id in (L, R) and isinstance(r, ast.Constant) and r.value == 0:
+            who = l.args[0].id
+        elif isinstance(l, ast.Name) and l.id in (L, R) and isinstance(r, ast.List) and not r.elts:
+            who = l.id
+        if who is not None and isinstance(test.ops[0], (ast.Eq, ast.NotEq)):
+            neg = isinstance(test.ops[0], ast.NotEq)
+            if who == L:
+                return lambda le, re_: le != neg
+            return lambda le, re_: re_ != neg
+        return None
+    if isinstance(test, ast.BoolOp):
+        parts = [_emptiness(v, L, R) for v in test.values]
+        if any(p_ is None for p_ in parts):
+            return None
+        if isinstance(test.op, ast.Or):
+            return lambda le, re_: any(p_(le, re_) for p_ in parts)
+        return lambda le, re_: all(p_(le, re_) for p_ in parts)
+    return None
+
+
+def _shortcut_exits(op, stmts, L, R):
+    """early `return (X, ..)` guarded by a test on the emptiness of the operands, at the top level of the case: the
+    value returned must equal the operator's value in every emptiness situation the guard admits."""
+    out = []
+    for st in stmts:
+        if not isinstance(st, ast.If):
+            continue
+        names = {n.id for n in ast.walk(st.test) if isinstance(n, ast.Name)}
+        if not (names & {L, R}):
+            continue
+        if not (len(st.body) == 1 and isinstance(st.body[0], ast.Return) and isinstance(st.body[0].value, ast.Tuple)
+                and st.body[0].value.elts):
+            continue
+        guard = _emptiness(st.test, L, R)
+        x = st.body[0].value.elts[0]
+        if isinstance(x, ast.Name) and x.id in (L, R):
+            val = x.id
+        elif isinstance(x, ast.List) and not x.elts:
+            val = 'EMPTY'
+        elif isinstance(x, ast.Call) and isinstance(x.func, ast.Name) and x.func.id == 'list' and len(x.args) == 1 \
+                and isinstance(x.args[0], ast.Name) and x.args[0].id in (L, R):
+            val = x.args[0].id
+        else:
+            val = None
+        if guard is None or val is None:
+            out.append((st, 'unproven', f"shortcut '{stmt_text(st.test, 50)}' -> '{stmt_text(x, 40)}' not recognised"))
+            continue
+        bad = None
+        for le in (True, False):
+            for re_ in (True, False):
+                if not guard(le, re_):
+                    continue
+                if not le and not re_:
+                    bad = ('both operands non-empty', None, None)
+                    break
+                want = {'union': ('EMPTY' if re_ else R) if le else L,
+                        'intersection': 'EMPTY',
+                        'difference': 'EMPTY' if le else L}[op]
+                got = 'EMPTY' if (val == L and le) or (val == R and re_) else val
+                if got != want:
+                    bad = (f"{'empty' if le else 'non-empty'} left and {'empty' if re_ else 'non-empty'} right operand",
+                           got, want)
+                    break
+            if bad:
+                break
+        if bad is None:
+            out.append((st, 'ok', ''))
+        elif bad[1] is None:
+            out.append((st, 'unproven', f"shortcut '{stmt_text(st.test, 50)}' can be taken with both operands non-empty"))
+        else:
+            out.append((st, 'violation',
+                        f"'if {stmt_text(st.test, 60)}: return ({stmt_text(x, 30)}, ..)' leaves the {op} case with "
+                        f"{'nothing' if bad[1] == 'EMPTY' else 'the ' + ('left' if bad[1] == L else 'right') + ' operand'} "
+                        f"for a {bad[0]}, where {op} yields "
+                        f"{'nothing' if bad[2] == 'EMPTY' else 'the ' + ('left' if bad[2] == L else 'right') + ' operand'}"))
+    return out
 
 
 def _classify_setop(op, body, res, init, L, R):
